@@ -1,7 +1,7 @@
 (* C12 — Builtins are total and agree with simple reference models.
    This file contains ONLY the property theorems, each closed by `exact <lemma>` and followed by
    Print Assumptions. The models are in Builtins.v / Rope.v, the specs in BuiltinSpec.v. *)
-From Quiver Require Import BuiltinSpec BuiltinProofs.
+From Quiver Require Import BuiltinSpec BuiltinProofs RopeProofs BuiltinWf IntBitProofs BinaryProofs VectorProofs BinaryShiftProofs.
 
 Theorem C12_integer_add : forall a b, impl_integer_add (BTup [BInt a; BInt b]) = Val (BInt (a + b)).
 Proof. exact integer_add_correct. Qed.
@@ -70,3 +70,213 @@ Theorem C12_integer_builtins_never_panic : forall a : bval,
   not_panic (impl_integer_not a) /\ not_panic (impl_integer_shift a) /\ not_panic (impl_integer_popcount a).
 Proof. exact integer_builtins_never_panic. Qed.
 Print Assumptions C12_integer_builtins_never_panic.
+
+(* ------------------------------------------------------------------ integer bitwise family, all arguments *)
+Theorem C12_integer_not : forall a : bval, flatten_out (impl_integer_not a) = spec_integer_not (flatten a).
+Proof. exact integer_not_correct. Qed.
+Print Assumptions C12_integer_not.
+
+Theorem C12_integer_shift : forall a : bval, flatten_out (impl_integer_shift a) = spec_integer_shift (flatten a).
+Proof. exact integer_shift_correct. Qed.
+Print Assumptions C12_integer_shift.
+
+Theorem C12_integer_popcount : forall a : bval, flatten_out (impl_integer_popcount a) = spec_integer_popcount (flatten a).
+Proof. exact integer_popcount_correct. Qed.
+Print Assumptions C12_integer_popcount.
+
+(* ------------------------------------------------------------------ ropes: the representation invariant
+   wf (RopeProofs.v) and the denotation theorems *)
+Theorem C12_rope_len : forall r, wf r -> rlen r = Z.of_nat (length (bytes_of r)).
+Proof. exact rlen_bytes_of. Qed.
+Print Assumptions C12_rope_len.
+
+Theorem C12_rope_bytes_are_bytes : forall r, wf r -> bytes_ok (bytes_of r).
+Proof. exact bytes_of_ok. Qed.
+Print Assumptions C12_rope_bytes_are_bytes.
+
+Theorem C12_rope_byte_at : forall r i, wf r ->
+  byte_at r i = if (0 <=? i) && (i <? rlen r) then nth_error (bytes_of r) (Z.to_nat i) else None.
+Proof. exact byte_at_spec. Qed.
+Print Assumptions C12_rope_byte_at.
+
+Theorem C12_rope_iter : forall r, wf r -> rope_iter r = bytes_of r.
+Proof. exact rope_iter_spec. Qed.
+Print Assumptions C12_rope_iter.
+
+(* list_find/find_from really is "the first index >= off" *)
+Theorem C12_list_find_is_first : forall b l p, list_find b l = Some p <->
+  (0 <= p /\ nth_error l (Z.to_nat p) = Some b /\ forall q, (q < Z.to_nat p)%nat -> nth_error l q <> Some b).
+Proof. exact list_find_spec. Qed.
+Print Assumptions C12_list_find_is_first.
+
+Theorem C12_list_find_none : forall b l, list_find b l = None <-> ~ In b l.
+Proof. exact list_find_none. Qed.
+Print Assumptions C12_list_find_none.
+
+Theorem C12_rope_find_byte : forall r b off, wf r -> 0 <= off ->
+  find_byte r b off = find_from b (bytes_of r) off.
+Proof. exact find_byte_spec. Qed.
+Print Assumptions C12_rope_find_byte.
+
+Theorem C12_rope_concat : forall l r, wf l -> wf r -> rlen l + rlen r <= MAX_BINARY_SIZE ->
+  wf (mk_concat l r) /\ bytes_of (mk_concat l r) = bytes_of l ++ bytes_of r.
+Proof. intros l r Hl Hr Hb. split; [exact (mk_concat_wf l r Hl Hr Hb) | exact (mk_concat_bytes l r)]. Qed.
+Print Assumptions C12_rope_concat.
+
+Theorem C12_rope_slice : forall p off len, wf p -> 0 <= off -> 0 <= len ->
+  (off + len <= rlen p ->
+     exists s, mk_slice p off len = Some s /\ wf s /\
+               bytes_of s = firstn (Z.to_nat len) (skipn (Z.to_nat off) (bytes_of p))) /\
+  (rlen p < off + len -> mk_slice p off len = None).
+Proof.
+  intros p off len Hp Ho Hl. split; [exact (mk_slice_some p off len Hp Ho Hl) | exact (mk_slice_none p off len Hp Ho Hl)].
+Qed.
+Print Assumptions C12_rope_slice.
+
+Theorem C12_rope_tiled : forall u c, wf u -> 0 <= c -> rlen u * c <= MAX_BINARY_SIZE ->
+  wf (mk_tiled u c) /\ bytes_of (mk_tiled u c) = concat (repeat (bytes_of u) (Z.to_nat c)).
+Proof. intros u c Hu Hc Hb. split; [exact (mk_tiled_wf u c Hu Hc Hb) | exact (mk_tiled_bytes u c Hu Hc)]. Qed.
+Print Assumptions C12_rope_tiled.
+
+Theorem C12_rope_shape_independent : forall r1 r2, wf r1 -> wf r2 -> bytes_of r1 = bytes_of r2 ->
+  rlen r1 = rlen r2 /\ (forall i, byte_at r1 i = byte_at r2 i) /\ rope_iter r1 = rope_iter r2 /\
+  (forall b off, 0 <= off -> find_byte r1 b off = find_byte r2 b off) /\
+  (forall off len, 0 <= off -> 0 <= len ->
+     option_map bytes_of (mk_slice r1 off len) = option_map bytes_of (mk_slice r2 off len)) /\
+  (forall c, 0 <= c -> bytes_of (mk_tiled r1 c) = bytes_of (mk_tiled r2 c)) /\
+  (forall r3, bytes_of (mk_concat r1 r3) = bytes_of (mk_concat r2 r3) /\ bytes_of (mk_concat r3 r1) = bytes_of (mk_concat r3 r2)).
+Proof. exact shape_independent. Qed.
+Print Assumptions C12_rope_shape_independent.
+
+(* ------------------------------------------------------------------ binary builtins.
+   Statement shape (BuiltinWf.agrees, written out): on every argument a (well-typed or not) whose
+   binaries are well-formed ropes, the implementation model returns what the reference spec returns
+   on the flattened argument (equal value up to bytes_of, equal error class), is not a Panic, and
+   returns well-formed ropes. *)
+
+Theorem C12_binary_new : forall a, wf_bval a ->
+  flatten_out (impl_binary_new a) = spec_binary_new (flatten a) /\ wf_out (impl_binary_new a).
+Proof. exact binary_new_correct. Qed.
+Print Assumptions C12_binary_new.
+
+Theorem C12_binary_length : forall a, wf_bval a ->
+  flatten_out (impl_binary_length a) = spec_binary_length (flatten a) /\ wf_out (impl_binary_length a).
+Proof. exact binary_length_correct. Qed.
+Print Assumptions C12_binary_length.
+
+Theorem C12_binary_concat : forall a, wf_bval a ->
+  flatten_out (impl_binary_concat a) = spec_binary_concat (flatten a) /\ wf_out (impl_binary_concat a).
+Proof. exact binary_concat_correct. Qed.
+Print Assumptions C12_binary_concat.
+
+Theorem C12_binary_repeat : forall a, wf_bval a ->
+  flatten_out (impl_binary_repeat a) = spec_binary_repeat (flatten a) /\ wf_out (impl_binary_repeat a).
+Proof. exact binary_repeat_correct. Qed.
+Print Assumptions C12_binary_repeat.
+
+Theorem C12_binary_and : forall a, wf_bval a ->
+  flatten_out (impl_binary_and a) = spec_binary_and (flatten a) /\ wf_out (impl_binary_and a).
+Proof. exact binary_and_correct. Qed.
+Print Assumptions C12_binary_and.
+
+Theorem C12_binary_or : forall a, wf_bval a ->
+  flatten_out (impl_binary_or a) = spec_binary_or (flatten a) /\ wf_out (impl_binary_or a).
+Proof. exact binary_or_correct. Qed.
+Print Assumptions C12_binary_or.
+
+Theorem C12_binary_xor : forall a, wf_bval a ->
+  flatten_out (impl_binary_xor a) = spec_binary_xor (flatten a) /\ wf_out (impl_binary_xor a).
+Proof. exact binary_xor_correct. Qed.
+Print Assumptions C12_binary_xor.
+
+Theorem C12_binary_not : forall a, wf_bval a ->
+  flatten_out (impl_binary_not a) = spec_binary_not (flatten a) /\ wf_out (impl_binary_not a).
+Proof. exact binary_not_correct. Qed.
+Print Assumptions C12_binary_not.
+
+Theorem C12_binary_index : forall a, wf_bval a ->
+  flatten_out (impl_binary_index a) = spec_binary_index (flatten a) /\ wf_out (impl_binary_index a).
+Proof. exact binary_index_correct. Qed.
+Print Assumptions C12_binary_index.
+
+Theorem C12_binary_slice : forall a, wf_bval a ->
+  flatten_out (impl_binary_slice a) = spec_binary_slice (flatten a) /\ wf_out (impl_binary_slice a).
+Proof. exact binary_slice_correct. Qed.
+Print Assumptions C12_binary_slice.
+
+Theorem C12_binary_popcount : forall a, wf_bval a ->
+  flatten_out (impl_binary_popcount a) = spec_binary_popcount (flatten a) /\ wf_out (impl_binary_popcount a).
+Proof. exact binary_popcount_correct. Qed.
+Print Assumptions C12_binary_popcount.
+
+Theorem C12_binary_hash32 : forall a, wf_bval a ->
+  flatten_out (impl_binary_hash32 a) = spec_binary_hash32 (flatten a) /\ wf_out (impl_binary_hash32 a).
+Proof. exact binary_hash32_correct. Qed.
+Print Assumptions C12_binary_hash32.
+
+Theorem C12_binary_hash64 : forall a, wf_bval a ->
+  flatten_out (impl_binary_hash64 a) = spec_binary_hash64 (flatten a) /\ wf_out (impl_binary_hash64 a).
+Proof. exact binary_hash64_correct. Qed.
+Print Assumptions C12_binary_hash64.
+
+Theorem C12_binary_shift : forall a, wf_bval a ->
+  flatten_out (impl_binary_shift a) = spec_binary_shift (flatten a) /\ wf_out (impl_binary_shift a).
+Proof. exact binary_shift_correct. Qed.
+Print Assumptions C12_binary_shift.
+
+(* ------------------------------------------------------------------ packed-vector kernels (same statement shape) *)
+
+Theorem C12_vector_add : forall a, wf_bval a ->
+  flatten_out (impl_vector_add a) = spec_vector_add (flatten a) /\ wf_out (impl_vector_add a).
+Proof. exact vector_add_correct. Qed.
+Print Assumptions C12_vector_add.
+
+Theorem C12_vector_subtract : forall a, wf_bval a ->
+  flatten_out (impl_vector_subtract a) = spec_vector_subtract (flatten a) /\ wf_out (impl_vector_subtract a).
+Proof. exact vector_subtract_correct. Qed.
+Print Assumptions C12_vector_subtract.
+
+Theorem C12_vector_multiply : forall a, wf_bval a ->
+  flatten_out (impl_vector_multiply a) = spec_vector_multiply (flatten a) /\ wf_out (impl_vector_multiply a).
+Proof. exact vector_multiply_correct. Qed.
+Print Assumptions C12_vector_multiply.
+
+Theorem C12_vector_less_than : forall a, wf_bval a ->
+  flatten_out (impl_vector_less_than a) = spec_vector_less_than (flatten a) /\ wf_out (impl_vector_less_than a).
+Proof. exact vector_less_than_correct. Qed.
+Print Assumptions C12_vector_less_than.
+
+Theorem C12_vector_equal : forall a, wf_bval a ->
+  flatten_out (impl_vector_equal a) = spec_vector_equal (flatten a) /\ wf_out (impl_vector_equal a).
+Proof. exact vector_equal_correct. Qed.
+Print Assumptions C12_vector_equal.
+
+Theorem C12_vector_greater_than : forall a, wf_bval a ->
+  flatten_out (impl_vector_greater_than a) = spec_vector_greater_than (flatten a) /\ wf_out (impl_vector_greater_than a).
+Proof. exact vector_greater_than_correct. Qed.
+Print Assumptions C12_vector_greater_than.
+
+Theorem C12_vector_dot : forall a, wf_bval a ->
+  flatten_out (impl_vector_dot a) = spec_vector_dot (flatten a) /\ wf_out (impl_vector_dot a).
+Proof. exact vector_dot_correct. Qed.
+Print Assumptions C12_vector_dot.
+
+Theorem C12_vector_take : forall a, wf_bval a ->
+  flatten_out (impl_vector_take a) = spec_vector_take (flatten a) /\ wf_out (impl_vector_take a).
+Proof. exact vector_take_correct. Qed.
+Print Assumptions C12_vector_take.
+
+Theorem C12_vector_get : forall a, wf_bval a ->
+  flatten_out (impl_vector_get a) = spec_vector_get (flatten a) /\ wf_out (impl_vector_get a).
+Proof. exact vector_get_correct. Qed.
+Print Assumptions C12_vector_get.
+
+Theorem C12_vector_push : forall a, wf_bval a ->
+  flatten_out (impl_vector_push a) = spec_vector_push (flatten a) /\ wf_out (impl_vector_push a).
+Proof. exact vector_push_correct. Qed.
+Print Assumptions C12_vector_push.
+
+Theorem C12_vector_sum : forall a, wf_bval a ->
+  flatten_out (impl_vector_sum a) = spec_vector_sum (flatten a) /\ wf_out (impl_vector_sum a).
+Proof. exact vector_sum_correct. Qed.
+Print Assumptions C12_vector_sum.
